@@ -21,7 +21,7 @@ RULE = (
     "'did not return' (counted, not judged); non-trivial = the operation returned and the input has >=2 plates or >=2 samples"
 )
 ASSUMPTIONS = ["per-plate hold-out count: ceil of the float product, of the exact rational product, and of the decimal reading of the fraction are all accepted"]
-REQUIRED = {"cli_prepare_runs": {"quick": 12, "thorough": 150}, "cli_prepare_fraction_0": {"quick": 6, "thorough": 14}, "generator_returns": {"quick": 600, "thorough": 9000}, "smoother_returns": {"quick": 1000, "thorough": 15000}, "holdout_returns": {"quick": 500, "thorough": 7000}, "input_unchanged_checks": {"quick": 3500, "thorough": 50000}, "ops_after_in_place_reveal": {"quick": 150, "thorough": 2500}}
+REQUIRED = {"holdouts_on_integer_masks": {"quick": 80, "thorough": 1200}, "cli_prepare_runs": {"quick": 12, "thorough": 150}, "cli_prepare_fraction_0": {"quick": 6, "thorough": 14}, "generator_returns": {"quick": 600, "thorough": 9000}, "smoother_returns": {"quick": 1000, "thorough": 15000}, "holdout_returns": {"quick": 500, "thorough": 7000}, "input_unchanged_checks": {"quick": 3500, "thorough": 50000}, "ops_after_in_place_reveal": {"quick": 150, "thorough": 2500}}
 N_OPS = {"quick": 4000, "thorough": 56000}
 
 
@@ -175,7 +175,17 @@ def run_shard(rec, tier, seed, shard, nshards):
             screen.set_observed(sel, screen.observations[sel].copy())
             rec.count("ops_after_in_place_reveal")
         kind, name, params, fn = RC.make_operation(rng, R, screen)
+        op_screen = screen
+        if kind == "holdout" and rng.random() < 0.25 and "observation_mask" in kw:
+            # the mask as 0 / 1 integers (what a table or an older file hands over); only the hold-outs are asked to
+            # cope with it, the views behind the smoothers insist on booleans
+            try:
+                op_screen = Screen(**dict(kw, observation_mask=np.asarray(screen.observation_mask).astype([np.int64, np.int8, np.uint8][int(rng.integers(3))])))
+                rec.count("holdouts_on_integer_masks")
+            except Exception:
+                op_screen = screen
         g, gstate = RC.rng_state_variant(shared, rng)
+        real_screen, screen = screen, op_screen
         before = RC.screen_fingerprint(kit, screen)
         w = {"op": name, "params": params, "flavour": flavour, "rng": gstate, "rows": int(screen.size), "plates": {str(p): [int((screen.plate_names == p).sum()), bool(screen.observation_mask[screen.plate_names == p][0])] for p in np.unique(screen.plate_names)}, "samples": sorted(set(str(x) for x in screen.sample_names))}
         ok, res = kit.returns(rec, name, fn, screen, g)
@@ -185,9 +195,8 @@ def run_shard(rec, tier, seed, shard, nshards):
         nontriv = ok and (len(w["plates"]) >= 2 or len(w["samples"]) >= 2)
         rec.case((name, repr(sorted(params.items())), shash, gstate), nontrivial=nontriv)
         if not ok:
-            if before != after:
-                # restore a clean screen for the following operations
-                screen = None
+            # restore a clean screen for the following operations
+            screen = None if before != after else real_screen
             continue
         rec.count("returned_" + name)
         if kind == "holdout":
@@ -201,4 +210,6 @@ def run_shard(rec, tier, seed, shard, nshards):
             rec.sample({"op": name, "params": params, "rng": gstate, "input_rows": int(screen.size), "input_plates": len(w["plates"]), "output_rows": int(res[0].size + res[1].size) if kind == "holdout" else int(res.size)})
         if before != after:
             screen = None
+        else:
+            screen = real_screen
     cli_prepare(rec, tier, rng)
